@@ -57,5 +57,26 @@ ASSUME Inside == \A m \in Msgs : \A j \in 1..Len(Ents(m, 1, 0, LastNonEmpty(m, L
 Cases == { [cls |-> "build", in |-> [kind |-> "build", pieces |-> m],
             expect_any |-> << [entities |-> Ents(m, 1, 0, LastNonEmpty(m, Len(m))), units |-> FinalUnits(m)],
                               [entities |-> Ents(m, 1, 0, 0), units |-> TotalUnits(m)] >>] : m \in Msgs }
-ASSUME Dump == \A c \in Cases : PrintT(ToJson(c))
+\* nested formatting (Token / Apply, what the HTML and Markdown parsers use): an outer range over pre \o inner \o post with
+\* an inner range over `inner`, optionally followed by a plain tail.  Trailing whitespace is trimmed only when the outer
+\* range ends the message; every entity is its piece cut to the final text.
+Min(a, b) == IF a < b THEN a ELSE b
+NPre == { <<>>, <<"a", "sp">>, <<"astral">> }
+NIn == { <<"a">>, <<"a", "sp">>, <<"astral", "nbsp">> }
+NPost == { <<>>, <<"sp">>, <<"a">>, <<"sp", "sp">> }
+NTail == { <<>>, <<"a">> }
+NestEnts(pre, inn, post, F) ==
+  << [type |-> "bold", off |-> 0, len |-> Min(Sum(pre) + Sum(inn) + Sum(post), F)],
+     [type |-> "italic", off |-> Sum(pre), len |-> Min(Sum(inn), F - Sum(pre))] >>
+NestCases == { LET all == pre \o inn \o post
+                   U == Sum(all) + Sum(tail)
+                   F == IF tail = <<>> THEN U - TrailSpace(all) ELSE U
+               IN [cls |-> "nest", in |-> [kind |-> "nest", pre |-> pre, inner |-> inn, post |-> post, tail |-> tail],
+                   expect_any |-> << [entities |-> NestEnts(pre, inn, post, F), units |-> F],
+                                     [entities |-> NestEnts(pre, inn, post, U), units |-> U] >>]
+               : pre \in NPre, inn \in NIn, post \in NPost, tail \in NTail }
+\* the inner piece keeps at least one unit in every case above (it starts with a non-space rune)
+ASSUME NestInside == \A c \in NestCases : \A k \in 1..2 : \A j \in 1..2 :
+          LET e == c.expect_any[k].entities[j] IN e.len >= 1 /\ e.off + e.len <= c.expect_any[k].units
+ASSUME Dump == \A c \in Cases \cup NestCases : PrintT(ToJson(c))
 =============================================================================
